@@ -52,6 +52,7 @@ def generate(rng, ctx):
         ops.append(op)
         if rng.random() < 0.25 and prefix:
             ops.append(rng.choice(prefix))
+    ops += targeted_ops(rng, schema, env)
     for path in inc:
         for _ in range(rng.choice([1, 2])):
             tree = gen.tree_for(rng, schema, env, valid=True, partial=0.6)
@@ -76,6 +77,54 @@ def generate(rng, ctx):
         tree = gen.tree_for(rng, schema, env, valid=True, partial=0.5)
         ops.append({"op": "loads", "tree": tree, "fmt": rng.choice(history.FORMATS), "failpoints": rng.getrandbits(30)})
     return {"schema": schema, "prefix": prefix, "ops": ops}
+
+
+def late_invalid(rng, node, env):
+    """A complete tree for a schema node in which only a LATE entry is rejected (the entries before it are fine)."""
+    tree = gen.tree_for(rng, node, env, valid=True, partial=0.0)
+    kids = [ch for ch in model.stored_children(node) if ch["kind"] == "field" and ch["family"] not in ("include", "any", "secure")
+            and ch["key"] in tree]
+    if len(tree) < 2 or not kids:
+        return None
+    for ch in reversed(kids):
+        bad = gen.one_value(rng, ch, "invalid", env)
+        if model.accepts_disk(ch, bad, env)[0] is False and list(tree).index(ch["key"]) > 0:
+            tree[ch["key"]] = bad
+            return tree
+    return None
+
+
+def targeted_ops(rng, schema, env):
+    """Populate lists of configurations and typed dicts, then reject late: the part applied before the rejected entry
+    must not stay behind."""
+    ops = []
+    for path, nd in history.all_paths(schema):
+        if "[]" in path or nd["kind"] != "field":
+            continue
+        if nd["family"] == "list" and nd.get("item") and nd["item"]["kind"] != "field" and rng.random() < 0.8:
+            for _ in range(2):
+                ops.append({"op": "listop", "path": path, "name": "append", "i": 0, "n": 0, "xs": [], "iter": "list", "a": None, "b": None,
+                            "x": gen.tree_for(rng, nd["item"], env, valid=True, partial=0.2)})
+            for _ in range(3):
+                t = late_invalid(rng, nd["item"], env)
+                if t is not None:
+                    ops.append({"op": "listop", "path": path, "name": rng.choice(["setitem", "setitem", "insert", "append"]),
+                                "i": rng.choice([0, 1, -1, -2]), "n": 0, "xs": [], "iter": "list", "a": None, "b": None, "x": t,
+                                "as_config": False})
+        if nd["family"] == "dict" and nd.get("valf") and nd["valf"]["family"] not in ("any", "secure") and rng.random() < 0.8:
+            kf, vf = nd.get("keyf"), nd["valf"]
+
+            def kv(want):
+                k = gen.one_value(rng, kf, "valid", env) if kf else "k%d" % rng.randrange(99)
+                return [k, gen.one_value(rng, vf, want, env)]
+
+            start = dict((str(k), v) if kf is None else (k, v) for k, v in (kv("valid") for _ in range(2)) if k is not None)
+            if start:
+                ops.append({"op": "set", "route": "attr", "path": path, "value": start})
+                good, bad = kv("valid"), kv("invalid")
+                if good[0] is not None and bad[0] is not None and good[0] != bad[0]:
+                    ops.append({"op": "dict_superset", "path": path, "add": [good, bad], "route": rng.choice(["attr", "item"])})
+    return ops
 
 
 def abbreviate(case):
